@@ -116,13 +116,13 @@ static int run(void)
 #endif
   cx_nochk = nochk;
   /* ---- reference acceptor over tokens first..last-1 */
-  int conform = 1, order_ok = 1, wrap = 0, autodup = 0, region = 0, regw = 0, nexp = 0, gcount_ok = 1;
+  int conform = 1, order_ok = 1, wrap = 0, autodup = 0, region = 0, nexp = 0, gcount_ok = 1;
   uint8_t seen_h[VF_N_HDR] = { 0 }, seen_b[VF_N_BODY] = { 0 }, seen_t[VF_N_TRL] = { 0 };
   for (int i = 0; i < VF_N_HDR; i++) if (vf_hdr_traits[i].fnum == 8 || vf_hdr_traits[i].fnum == 9 || vf_hdr_traits[i].fnum == 35) seen_h[i] = 1;   /* the preamble */
   uint8_t E_comp[NTOK]; int E_tok[NTOK]; int U_tok[NTOK]; int nunk = 0;
   int ing = 0, nelem = 0, elem_has1 = 0, elem_has2 = 0;      /* inside the repeating group: element bookkeeping */
   for (int k = first; k < last; k++) if (TK_on[k]) {
-    uint32_t num = TK_num[k]; uint32_t w = num & 0xffff;
+    uint32_t num = TK_num[k];
     if (num > 65535) wrap = 1;
     if (num == 8 || num == 9 || num == 35) autodup = 1;
 #if NG > 0
@@ -141,10 +141,9 @@ static int run(void)
 #if PERM == 1
     if (r < 0) { U_tok[nunk++] = k; continue; }      /* permissive mode: a tag of no component of this message is an unknown token; the rest must conform */
 #endif
-    if (r < 0 || r < region) conform = 0; else region = r;
-    /* the same with tags reduced mod 65536 (what the decoder's unsigned short sees): used only by the known-finding assumptions */
-    { int hw = in_tab(vf_hdr_traits, VF_N_HDR, w), bw = in_tab(vf_body_traits, VF_N_BODY, w), tw = in_tab(vf_trl_traits, VF_N_TRL, w) && w != 10;
-      int rw = hw ? 0 : bw ? 1 : tw ? 2 : -1; if (rw < 0 || rw < regw) order_ok = 0; else regw = rw; }
+    /* order_ok: every tag (by its true number) belongs to the component being decoded or a later one - the class the tail-dropping known finding
+       excludes; tags above 65535 belong to no component (trees that reduce them mod 65536 additionally fall under KF_TAG_WRAP) */
+    if (r < 0 || r < region) { conform = 0; order_ok = 0; } else region = r;
     if (r == 0) for (int i = 0; i < VF_N_HDR; i++) if (vf_hdr_traits[i].fnum == num) { if (seen_h[i]) conform = 0; seen_h[i] = 1; }
     if (r == 1) for (int i = 0; i < VF_N_BODY; i++) if (vf_body_traits[i].fnum == num) { if (seen_b[i]) conform = 0; seen_b[i] = 1; }
     if (r == 2) for (int i = 0; i < VF_N_TRL; i++) if (vf_trl_traits[i].fnum == num) { if (seen_t[i]) conform = 0; seen_t[i] = 1; }
